@@ -19,6 +19,10 @@ class Verdict:
         self.error = None
         self.skipped = 0
         self.timeouts = []     # scenario ids whose validation did not finish (inconclusive)
+        self.flags_run = {}
+        self.flags_done = set()
+        self.flags = {}        # scenario id -> names of the properties (Rapid!PropHolds) that failed in the
+                               # behaviour explaining its trace (intersection over all behaviours TLC reported)
 
 
 def _run(module, cfg, events, timeout, hwm=None, keep=False):
@@ -67,6 +71,7 @@ def validate(items, module="Trace_Rapid", cfg="Trace_Rapid.cfg", timeout=240, bo
                 sub = validate([(sc, None) for sc, _ in part], module, cfg, max(60, timeout // 2), bound, explain_dir,
                                max_reject, _projected=part)
                 v.accepted += sub.accepted
+                v.flags.update(sub.flags)
                 v.rejected += sub.rejected
                 v.timeouts += sub.timeouts
                 v.events += sub.events
@@ -82,6 +87,15 @@ def validate(items, module="Trace_Rapid", cfg="Trace_Rapid.cfg", timeout=240, bo
             return v
         hws = [int(x) for x in re.findall(r'"hw", (\d+)', r.out)]
         hw = max(hws) if hws else 1
+        for m in re.finditer(r'<<"flags", "([^"]*)", \{([^}]*)\}>>', r.out):
+            names = set(re.findall(r'"([^"]+)"', m.group(2)))
+            sid = m.group(1)
+            if sid and sid not in v.flags_done:
+                v.flags_run.setdefault(sid, []).append(names)
+        for sid, sets in v.flags_run.items():
+            v.flags[sid] = set.intersection(*sets)
+            v.flags_done.add(sid)
+        v.flags_run = {}
         if hw >= len(allev) + 1:
             v.accepted += [sc.get("id") for sc, _ in todo]
             v.events += len(allev)
